@@ -9,6 +9,7 @@ import (
 	"crypto/x509/pkix"
 	"encoding/pem"
 	"fmt"
+	"io"
 	"math/big"
 	"net"
 	"os"
@@ -235,6 +236,11 @@ func (li *Listener) acceptLoop(ctx context.Context) {
 			}
 			buf := make([]byte, 1)
 			n, err := qs.Read(buf)
+			if n == 1 && err == io.EOF {
+				// The dialer wrote nothing and closed its side at once: the initial byte arrives together
+				// with the end of the stream. That is a valid (empty) stream, not a read error.
+				err = nil
+			}
 			if err != nil {
 				_ = qc.CloseWithError(500, fmt.Sprintf("Read Error: %s", err.Error()))
 				li.sendResult(ctx, nil, err)
